@@ -6,8 +6,10 @@ git -C /repo worktree add -q --detach $WT HEAD || exit 2
 if ! git -C $WT apply /verif/seeded/$SID/patch.diff; then echo "$SID: patch does not apply"; git -C /repo worktree remove --force $WT; exit 2; fi
 cd /verif
 mkdir -p /tmp/mut_evidence
+cp /verif/evidence/$CID.json /tmp/mut_evidence/.keep_${SID}_$CID.json 2>/dev/null
 VERIF_REPO=$WT ./bin/check $CID --tier $TIER > /tmp/mut_${SID}_${CID}.log 2>&1; RC=$?
 cp /verif/evidence/$CID.json /tmp/mut_evidence/${SID}_$CID.json 2>/dev/null
+cp /tmp/mut_evidence/.keep_${SID}_$CID.json /verif/evidence/$CID.json 2>/dev/null   # evidence committed under /verif is about /repo itself
 git -C /repo worktree remove --force $WT
 echo "$SID vs $CID ($TIER): exit=$RC  $(grep -c '^VIOLATION' /tmp/mut_${SID}_${CID}.log) violation lines; $(grep -m1 '^VIOLATION' -A1 /tmp/mut_${SID}_${CID}.log | tail -1 | cut -c1-200)"
 exit $RC
